@@ -536,6 +536,12 @@ func e2eC14Scenario(t *testing.T, rec *vlib.Rec, idx int) {
 			rec.Violation("e2e:c14:from-new:rib-path-differs", fmt.Sprintf("Loc-RIB AS_PATH '%s' (err %v)", refmodel.C09PathText(got), err), wit(rt, nil))
 		}
 		got, held := oView[simRouteKey{bgp.RF_IPv4_UC, rt.pfx, 0}]
+		if !held && e2eC14OldSize(want) > 4096-96 {
+			// AS_PATH + AS4_PATH together (nearly) exceed the 4096-octet limit of the session: the route cannot be
+			// sent to an OLD speaker at all (skipping it is what C11 asks for)
+			rec.Count("e2e:c14:to-old:too-large-for-the-session", 1)
+			continue
+		}
 		if !held {
 			rec.Violation("e2e:c14:to-old:route-missing:"+suffix, "the 2-octet speaker never received the route", wit(rt, map[string]any{"rx": e2eRxLog(O, 4)}))
 			continue
@@ -690,6 +696,10 @@ func e2eC14Scenario(t *testing.T, rec *vlib.Rec, idx int) {
 		// at the 4-octet speaker
 		wantN := e2eC14Export(sc.nKind, rt.x, sc.L(), sc.gAS)
 		gn, held := nView[simRouteKey{bgp.RF_IPv4_UC, rt.pfx, 0}]
+		if sz := 4 * e2eC14Members(wantN); !held && sz > 4096-160 {
+			rec.Count("e2e:c14:from-old:too-large-for-the-session", 1)
+			continue
+		}
 		if !held {
 			rec.Violation("e2e:c14:from-old:route-missing:new-speaker:"+rt.class, "the 4-octet speaker never received the route learned from the 2-octet speaker", w(map[string]any{"rx": e2eRxLog(N, 4)}))
 			continue
@@ -852,4 +862,28 @@ func (sc *e2eC14Sc) genOldRoute(i int) *e2eC14Route {
 		rt.agg = &e2eC14Agg{AS: []uint32{64496, 65535, 70009}[r.IntN(3)], Addr: netip.MustParseAddr("192.0.2.202")}
 	}
 	return rt
+}
+
+// e2eC14OldSize: octets of AS_PATH (2-octet form) + AS4_PATH the path needs towards an OLD speaker.
+func e2eC14OldSize(p []e2eSeg) int {
+	n := 4
+	n4 := 0
+	for _, s := range p {
+		n += 2 + 2*len(s.AS)
+		if !e2eIsConfed(s.Type) {
+			n4 += 2 + 4*len(s.AS)
+		}
+	}
+	if e2eC14Has4(p, true) {
+		n += 4 + n4
+	}
+	return n
+}
+
+func e2eC14Members(p []e2eSeg) int {
+	n := 0
+	for _, s := range p {
+		n += 1 + len(s.AS)
+	}
+	return n
 }
